@@ -3,11 +3,11 @@
    run on gopar's output by the check.  Proved here about the WRITER model (Model/Par2.v, the model
    of encoder.go / file.go / packet.go that the check compares byte for byte with gopar's output):
    framing, padding, the volume layout, the ordering of the recovery set, and that every recovery
-   block is the specification's sum.  Not yet a theorem: that valid_set accepts the model writer's
-   output for all inputs (it is evaluated on every generated set instead). *)
+   block is the specification's sum, that the reader reads it back (Create then Verify is clean), and
+   that the INDEPENDENT validator valid_set accepts the writer's output for every accepted input set. *)
 From Coq Require Import Permutation.
 From Gopar Require Import Model.Base Model.GF16 Model.Matrix Model.RS16 Model.CRC Model.GoPath Model.FS Model.Par2 Model.Par2Spec
-     Proofs.LinAlg Proofs.Matrix16 Proofs.RS16Facts Proofs.Par2Facts Proofs.Par2Create Proofs.Par2Layout Proofs.Par2Clean.
+     Proofs.LinAlg Proofs.Matrix16 Proofs.RS16Facts Proofs.Par2Facts Proofs.Par2Create Proofs.Par2Layout Proofs.Par2Clean Proofs.Par2SpecFacts.
 Open Scope N_scope.
 
 (* what the writer frames, the reader unframes, whatever follows - for every set id, type and body *)
@@ -69,6 +69,24 @@ Theorem C05_create_then_verify_clean : forall md5, (forall x, length (md5 x) = 1
   exists c st, par2_verify md5 ix (io_init fs []) = (Ok c, st) /\ repair_needed c = false /\ c_pusable c = np.
 Proof. exact create_then_verify_clean. Qed.
 Print Assumptions C05_create_then_verify_clean.
+
+(* THE PROPERTY ON THE MODEL: for EVERY input set the writer accepts (names without NUL, contents of
+   bytes, any slice size up to 2^40, any block count, distinct file ids) the files it emits satisfy
+   every clause of valid_set - framing, lengths, packet MD5s, set id, ascending ids of the inputs,
+   file and 16k hashes, slice MD5/CRC32 with padding, creator packets, every recovery block equal to
+   sum_i slice_i * c_i^e with the specification's constants and reduced carry-less arithmetic, and the
+   exponents 0..n-1 exactly once.  md5 is a parameter: its results are 16 byte values (premises). *)
+Theorem C05_writer_output_valid : forall md5, (forall x, length (md5 x) = 16%nat) -> (forall x, wf_bytes (md5 x)) ->
+  forall parPath sz np names datas outs,
+  create_outputs md5 parPath sz np names datas = Ok outs ->
+  N.of_nat sz <= MAXSLICE ->
+  Forall (fun nm : bytes => no_nul nm /\ N.of_nat (length nm) < 2 ^ 32) names ->
+  Forall (fun d : bytes => wf_bytes d /\ N.of_nat (length d) <= MAXINT) datas ->
+  NoDup (map fi_id (map (fun nd => data_file_info md5 sz (fst nd) (snd nd)) (combine names datas))) ->
+  valid_set md5 sz np (map (fun nd : bytes * bytes => {| in_name := fst nd; in_data := snd nd |}) (combine names datas))
+            (map (fun pb : list N * bytes => (str_eqb (fst pb) (strip_ext parPath ++ EXT_PAR2), snd pb)) outs) = true.
+Proof. exact create_outputs_valid. Qed.
+Print Assumptions C05_writer_output_valid.
 
 (* the constants of the specification-side validator: 2^1, 2^2, 2^4, 2^7, 2^8, 2^11 *)
 Theorem C05_spec_constants : s_consts 100 0 6 = [2; 4; 16; 128; 256; 2048].
